@@ -265,6 +265,9 @@ def _plant_ref(form, r, ref_text):
 
 def op_unknown_ref(form, r):
     tok = f"{TOK}_missing"
+    root = form.get("settings", {}).get("name") or form.get("args", {}).get("form_name") or "data"
+    if r.random() < 0.25 and not any(n["c"].get("name") == root for n, _ in all_nodes(form)):
+        tok = root       # the form's own root is not a question: a reference to its name is a reference to nothing
     p = _plant_ref(form, r, "${%s}" % tok)
     if not p:
         return None
@@ -726,7 +729,7 @@ def op_omit_instance_id_with_key(form, r):
 
 
 def op_save_to_problem(form, r):
-    kind = r.choice(["no-sheet", "in-repeat", "on-group", "bad-name"])
+    kind = r.choice(["no-sheet", "in-repeat", "on-group", "on-loop", "bad-name"])
     if kind == "no-sheet":
         if form.get("entities"):
             return None
@@ -748,6 +751,16 @@ def op_save_to_problem(form, r):
         node = {"k": "q", "c": {"type": "text", "name": f"{TOK}sv", "label": "S", "save_to": f"{TOK}prop"}}
         n["ch"].append(node)
         return Plan(form, tokens=["repeat"], row=rows_of(form)[id(node)][0], depth=len(anc) + 1, note=kind)
+    if kind == "on-loop":
+        if not form.get("lists"):
+            return None
+        # a loop row carries its list after the container word
+        node = {"k": "x", "c": {"type": r.choice(["begin loop over ", "begin lgroup over ", "begin_loop over "]) + form["lists"][0]["name"],
+                                "name": f"{TOK}lp", "label": "L", "save_to": f"{TOK}prop"}}
+        form["nodes"].append(node)
+        form["nodes"].append({"k": "q", "c": {"type": "text", "name": f"{TOK}li", "label": "i"}})
+        form["nodes"].append({"k": "x", "c": {"type": "end loop"}})
+        return Plan(form, anyof=["Groups and repeats", "repeat", "loop"], row=rows_of(form)[id(node)][0], depth=0, note=kind)
     if kind == "on-group":
         c = _pick(r, _containers(form))
         if not c:
